@@ -288,3 +288,57 @@ func verifC15During(nOld int) {
 
 func verifH_C15_During2() { verifC15During(2) }
 func verifH_C15_During3() { verifC15During(3) }
+
+// Labels added while an invalidation that FAILS is in flight: new keys are labelled with L1 from inside a
+// Delete call, a (possibly later) Delete call of the same invalidation fails. The failing call puts the
+// unprocessed keys back next to whatever was indexed meanwhile: after the deleter recovered, one more call
+// removes every key - old or new - exactly once over the two calls.
+func verifC15DuringFail(nOld int) {
+	idx := NewInvalidationIndex()
+	d := verifNewDeleter()
+	idx.AddCache("n1", d)
+	old := []string{"a", "b", "c"}[:nOld]
+	for _, k := range old {
+		idx.AddLabels("n1", []byte(k), "L1")
+	}
+	added := 1 + verifChoice("labelledDuringTheCall", 2) // 1 or 2 new keys
+	at := 1 + verifChoice("duringDeleteCall", nOld)
+	d.failAt, d.failErr = 1+verifChoice("failAt", nOld), errors.New("boom")
+	verifAssume(at <= d.failAt) // the labels are added before the invalidation is aborted
+	newKeys := []string{"x", "y"}[:added]
+	d.duringCall = func(n int) {
+		if n == at {
+			for _, k := range newKeys {
+				idx.AddLabels("n1", []byte(k), "L1")
+			}
+		}
+	}
+	verifMapOrder(verifChoice("mapOrder", 2))
+	cnt, err := idx.InvalidateByLabels(context.Background(), "L1")
+	d.duringCall = nil
+	if err == nil { // the new keys were appended behind the failing position and the call never got there
+		return
+	}
+	first := 0
+	for _, k := range old {
+		first += d.okCalls[k]
+	}
+	for _, k := range newKeys {
+		first += d.okCalls[k]
+	}
+	verifAssert("count of the failing call equals the entries it removed", cnt == first)
+	d.healthy = true
+	cnt2, err2 := idx.InvalidateByLabels(context.Background(), "L1")
+	verifReach("labels added during a failing invalidation")
+	verifAssert("retry succeeds", err2 == nil)
+	for _, k := range old {
+		verifAssert("a key labelled before the failing call is removed exactly once over the two calls", d.okCalls[k] == 1)
+	}
+	for _, k := range newKeys {
+		verifAssert("a key labelled during the failing call is removed exactly once over the two calls", d.okCalls[k] == 1)
+	}
+	verifAssert("retry count equals the entries it removed", cnt+cnt2 == nOld+added)
+}
+
+func verifH_C15_DuringFail2() { verifC15DuringFail(2) }
+func verifH_C15_DuringFail3() { verifC15DuringFail(3) }
